@@ -665,11 +665,12 @@ class World:
                 continue
             k = keep.get(q, len(link.inflight))
             del link.inflight[k:]
-            link.src_closed = True
-            link.reset = (mode == 'reset')
+            if mode != 'freeze':           # 'freeze': the party just goes silent (stopped process, partition): no EOF
+                link.src_closed = True
+                link.reset = (mode == 'reset')
             inc = self.links.get((q, p))
             if inc is not None:
-                inc.dst_open = False
+                inc.dst_open = False     # nothing is read any more (writes into it are dropped silently)
                 inc.inflight.clear()
 
     # -- status ----------------------------------------------------------------------------
